@@ -530,6 +530,15 @@ type QuantInfo struct {
 	Vars   []string // all bound variables (len >= 1)
 	Sorts  []string
 	Body   Term
+	Range  bool // type-range axiom over select^n(arr, vars): instantiated at read index tuples only
+}
+
+// markRange flags a quantified symbol as a type-range axiom.
+func (c *Ctx) markRange(q Term) Term {
+	if d, ok := c.decls[q.T]; ok && d.Quant != nil {
+		d.Quant.Range = true
+	}
+	return q
 }
 
 type Ctx struct {
@@ -752,11 +761,31 @@ func (c *Ctx) Script(logic string, asserts []Term, inst bool) (string, bool) {
 		if v := os.Getenv("GOVC_HARVEST_ROUNDS"); v != "" {
 			fmt.Sscanf(v, "%d", &harvestRounds)
 		}
-		harvest := func(text string) {
+		var harvest func(text string)
+		harvest = func(text string) {
 			for _, ix := range selectIndexTerms(text) {
 				if s := c.guessSort(ix, quants); s != "" {
 					addTerm(s, ix)
 				}
+			}
+		}
+		// index pairs (X, Y) of nested reads (select (select A X) Y): the only tuples a two-variable
+		// type-range axiom is needed at
+		var pairs [][2]string
+		pairSeen := map[string]bool{}
+		basePairs := harvest
+		harvest = func(text string) {
+			basePairs(text)
+			for _, pr := range selectIndexPairs(text) {
+				k := pr[0] + "|" + pr[1]
+				if pairSeen[k] || len(pairs) > 1200 {
+					continue
+				}
+				if c.guessSort(pr[0], quants) == "" || c.guessSort(pr[1], quants) == "" {
+					continue
+				}
+				pairSeen[k] = true
+				pairs = append(pairs, pr)
 			}
 		}
 		for _, a := range asserts {
@@ -764,11 +793,27 @@ func (c *Ctx) Script(logic string, asserts []Term, inst bool) (string, bool) {
 		}
 		applied := map[string]bool{} // quant name + "|" + term
 		skolemDone := map[string]bool{}
-		total := 0
+		skPrio := map[string]int{}
+		total, totalRange := 0, 0
 		for round := 0; round < maxRounds; round++ {
 			progress := false
 			// snapshot of quantifiers known so far
 			qs := append([]*Decl{}, quants...)
+			// skolemise every known quantifier first, so that each witness is available to all of them;
+			// then instantiate the user's facts (one variable, then several) before the type-range axioms
+			sort.SliceStable(qs, func(a, b int) bool {
+				ra := func(d *Decl) int {
+					switch {
+					case d.Quant.Range:
+						return 2
+					case len(d.Quant.Vars) > 1:
+						return 1
+					}
+					return 0
+				}
+				return ra(qs[a]) < ra(qs[b])
+			})
+			for pass := 0; pass < 2; pass++ {
 			for _, q := range qs {
 				qi := q.Quant
 				sk := q.Name + "!sk"
@@ -776,7 +821,12 @@ func (c *Ctx) Script(logic string, asserts []Term, inst bool) (string, bool) {
 				if qi.Exists {
 					pos, neg = neg, pos
 				}
-				if !skolemDone[q.Name] {
+				if pass == 0 {
+					if skolemDone[q.Name] {
+						continue
+					}
+				}
+				if pass == 0 && !skolemDone[q.Name] {
 					skolemDone[q.Name] = true
 					progress = true
 					var sks []string
@@ -787,6 +837,11 @@ func (c *Ctx) Script(logic string, asserts []Term, inst bool) (string, bool) {
 						}
 						sks = append(sks, skn)
 						addTerm(qi.Sorts[i], skn)
+						if len(qi.Vars) > 1 {
+							skPrio[skn] = 2
+						} else {
+							skPrio[skn] = 1
+						}
 					}
 					bsk := qi.subst(sks)
 					if qi.Exists {
@@ -797,7 +852,20 @@ func (c *Ctx) Script(logic string, asserts []Term, inst bool) (string, bool) {
 					visit(bsk)
 					harvest(bsk)
 				}
+				if pass == 0 {
+					continue
+				}
+				budget := &total
+				if qi.Range {
+					budget = &totalRange
+				}
 				// tuples of instantiation terms (cartesian product, capped)
+				var tuples [][]string
+				if qi.Range && len(qi.Vars) == 2 {
+					for _, pr := range pairs {
+						tuples = append(tuples, []string{pr[0], pr[1]})
+					}
+				} else {
 				var lists [][]string
 				for i := range qi.Vars {
 					var ts []string
@@ -806,11 +874,13 @@ func (c *Ctx) Script(logic string, asserts []Term, inst bool) (string, bool) {
 					}
 					sort.Strings(ts)
 					if len(qi.Vars) > 1 && len(ts) > 24 {
+						// keep the skolems of multi-variable quantifiers (the witnesses a pairwise fact is
+						// needed at), then other skolems, then the rest
+						sort.SliceStable(ts, func(a, b int) bool { return skPrio[ts[a]] > skPrio[ts[b]] })
 						ts = ts[:24]
 					}
 					lists = append(lists, ts)
 				}
-				var tuples [][]string
 				var rec func(i int, cur []string)
 				rec = func(i int, cur []string) {
 					if len(tuples) > 1500 {
@@ -825,13 +895,14 @@ func (c *Ctx) Script(logic string, asserts []Term, inst bool) (string, bool) {
 					}
 				}
 				rec(0, nil)
+				}
 				for _, tup := range tuples {
 					key := q.Name + "|" + strings.Join(tup, "|")
-					if applied[key] || total > 6000 {
+					if applied[key] || *budget > 6000 {
 						continue
 					}
 					applied[key] = true
-					total++
+					*budget++
 					progress = true
 					b := qi.subst(tup)
 					if qi.Exists {
@@ -844,6 +915,7 @@ func (c *Ctx) Script(logic string, asserts []Term, inst bool) (string, bool) {
 						harvest(b)
 					}
 				}
+			}
 			}
 			drain()
 			if !progress {
@@ -929,6 +1001,33 @@ func selectIndexTerms(text string) []string {
 			continue
 		}
 		out = append(out, text[e1+1:e2])
+	}
+	return out
+}
+
+// selectIndexPairs returns (X, Y) for every nested read (select (select A X) Y) in text.
+func selectIndexPairs(text string) [][2]string {
+	var out [][2]string
+	const pfx = "(select (select "
+	for i := 0; i+len(pfx) <= len(text); i++ {
+		if text[i] != '(' || !strings.HasPrefix(text[i:], pfx) {
+			continue
+		}
+		in := i + len("(select ")
+		j := in + len("(select ")
+		e1 := sexpEnd(text, j) // A
+		if e1 < 0 || e1 >= len(text) || text[e1] != ' ' {
+			continue
+		}
+		e2 := sexpEnd(text, e1+1) // X
+		if e2 < 0 || e2+1 >= len(text) || text[e2] != ')' || text[e2+1] != ' ' {
+			continue
+		}
+		e3 := sexpEnd(text, e2+2) // Y
+		if e3 < 0 {
+			continue
+		}
+		out = append(out, [2]string{text[e1+1 : e2], text[e2+2 : e3]})
 	}
 	return out
 }
